@@ -136,7 +136,7 @@ impl MemcacheBinaryCodec {
         op_delete_class(self.header.opcode),
         old(src)@.len() >= self.header.body_length,
     ensures
-        parser_post(self.header, old(src)@, final(src)@, r), // @ob C09,C10,C08,C19,C12,C18 parse_delete_request.frame_exact
+        parser_post(self.header, old(src)@, final(src)@, r), // @ob C09,C10,C08,C19,C12,C18,C02 parse_delete_request.frame_exact
 //@endfn
 
 //@fn protocol/binary_codec.rs | impl MemcacheBinaryCodec | parse_header_only_request | ret=r | safety=C10,C09,C12,C19
@@ -160,7 +160,7 @@ impl MemcacheBinaryCodec {
         op_flush_class(self.header.opcode),
         old(src)@.len() >= self.header.body_length,
     ensures
-        parser_post(self.header, old(src)@, final(src)@, r), // @ob C09,C10,C08,C19,C12,C18 parse_flush_request.frame_exact
+        parser_post(self.header, old(src)@, final(src)@, r), // @ob C09,C10,C08,C19,C12,C18,C05 parse_flush_request.frame_exact
 //@endfn
 
 //@fn protocol/binary_codec.rs | impl MemcacheBinaryCodec | parse_append_prepend_request | ret=r | safety=C10,C09,C12,C19
@@ -168,7 +168,7 @@ impl MemcacheBinaryCodec {
         op_append_class(self.header.opcode),
         old(src)@.len() >= self.header.body_length,
     ensures
-        parser_post(self.header, old(src)@, final(src)@, r), // @ob C09,C10,C06,C19,C01,C12,C18 parse_append_prepend_request.frame_exact
+        parser_post(self.header, old(src)@, final(src)@, r), // @ob C09,C10,C06,C19,C01,C12,C18,C02 parse_append_prepend_request.frame_exact
 //@endfn
 
 //@fn protocol/binary_codec.rs | impl MemcacheBinaryCodec | parse_inc_dec_request | ret=r | safety=C10,C09,C12,C19
@@ -176,7 +176,7 @@ impl MemcacheBinaryCodec {
         op_incdec_class(self.header.opcode),
         old(src)@.len() >= self.header.body_length,
     ensures
-        parser_post(self.header, old(src)@, final(src)@, r), // @ob C09,C10,C07,C19,C12,C18 parse_inc_dec_request.frame_exact
+        parser_post(self.header, old(src)@, final(src)@, r), // @ob C09,C10,C07,C19,C12,C18,C05 parse_inc_dec_request.frame_exact
 //@endfn
 
 //@fn protocol/binary_codec.rs | impl MemcacheBinaryCodec | parse_item_too_large | ret=r | safety=C10,C09,C12,C19
@@ -190,7 +190,7 @@ impl MemcacheBinaryCodec {
         op_set_class(self.header.opcode),
         old(src)@.len() >= self.header.body_length,
     ensures
-        parser_post(self.header, old(src)@, final(src)@, r), // @ob C09,C10,C01,C06,C19,C12,C18 parse_set_request.frame_exact
+        parser_post(self.header, old(src)@, final(src)@, r), // @ob C09,C10,C01,C06,C19,C12,C18,C02,C05 parse_set_request.frame_exact
 //@endfn
 
 //@fn protocol/binary_codec.rs | impl MemcacheBinaryCodec | request_valid | ret=r | safety=C10
